@@ -187,4 +187,42 @@ theorem selectNodes_targets (g : G) (hnd : g.nodes.Nodup) (ht : TopoL g.preds g.
     · exact Or.inl h
     · exact Or.inr ⟨t, htT, (reachB_iff hnd ht hx).2 hxt⟩
 
+/-! ### empty lists are selections too (of nothing), not "no restriction" -/
+
+/-- `root_nodes=[]`: no root at all — nothing is selected, whatever the exclusions and targets -/
+theorem selectNodes_empty_roots (g : G) (X T : Option (List Node)) : selectNodes g (some []) X T = [] := by
+  have h1 : ∀ y, s1 g (some []) y = false := by intro y; simp [s1]
+  have hg2 : (g2Of g (some []) X).nodes = [] := by
+    simp only [g2Of, induced]
+    apply List.filter_eq_nil_iff.mpr
+    intro a _
+    simp [h1 a]
+  simp [selectNodes, hg2]
+
+/-- ... and a target next to an empty root list is outside the selection: refused, as any target that is not selected -/
+theorem selectChecked_empty_roots_target (g : G) (X : Option (List Node)) (t : Node) (T : List Node)
+    (hX : match X with | none => True | some X => X = []) :
+    selectChecked g (some []) X (some (t :: T)) = .error .targetMissing := by
+  have h1 : ∀ y, s1 g (some []) y = false := by intro y; simp [s1]
+  have hg2 : (g2Of g (some []) X).nodes = [] := by
+    simp only [g2Of, induced]
+    apply List.filter_eq_nil_iff.mpr
+    intro a _
+    simp [h1 a]
+  unfold selectChecked
+  cases X with
+  | none => simp [isRootB, hg2]
+  | some X => simp only at hX; subst hX; simp [isRootB, hg2]
+
+/-- `target_nodes=[]`: nothing is selected -/
+theorem selectNodes_empty_targets (g : G) (R X : Option (List Node)) : selectNodes g R X (some []) = [] := by
+  simp [selectNodes, s3]
+
+/-- `exclude_nodes=[]` excludes nothing: the same selection as without the argument -/
+theorem selectNodes_empty_exclusions (g : G) (R T : Option (List Node)) :
+    selectNodes g R (some []) T = selectNodes g R none T := by
+  have h : g2Of g R (some []) = g2Of g R none := by
+    simp [g2Of, dX]
+  simp [selectNodes, h]
+
 end GM
